@@ -402,6 +402,16 @@ impl<H: Handler> DeviceModel for Shared<H> {
             d.qs.v.clear();
         }
         d.h.on_status(w, old, new);
+        if new & crate::dev::ST_DRIVER_OK != 0 && old & crate::dev::ST_DRIVER_OK == 0 {
+            // a device that starts operating looks at its rings once
+            for q in 0..d.nq {
+                if d.qs.ensure(w, q) && d.qs.pending(w, q) > 0 {
+                    d.serve(w, q);
+                }
+            }
+            let d = &mut *d;
+            let _ = d.h.on_turn(w, &mut d.qs);
+        }
     }
 
     fn on_config_access(&mut self, w: &mut World, off: usize, len: usize, write: bool) {
